@@ -275,6 +275,7 @@ func replayCodec(id, fn string, a1, a2 []byte) {
 		emitEnc(id, string(a1) == "1", a2)
 		return
 	default:
+		replayDec(id, fn, a1, a2)
 		return
 	}
 	emit("CODEC %s %s %s %s => %s", id, fn, hx(a1), hx(a2), res)
